@@ -294,12 +294,19 @@ func zzAccount(im *zzImage, id string, extraFree []uint64) {
 // zzAccountKnown: as zzAccount; the "no page leaked" clause is asserted unless the known-finding
 // trigger holds (only honoured when key is listed as known in known_findings.txt).
 func zzAccountKnown(im *zzImage, id string, extraFree []uint64, trigger bool, key string) {
+	zzAccountKnown2(im, id, extraFree, false, trigger, key)
+}
+
+// zzAccountKnown2: with memAuthoritative the given in-memory list (free+pending of the open handle) is
+// the free list that is accounted, even if the meta still references a freelist page written under an
+// earlier freelist-sync setting (that page then counts as in use, as it is until the next commit).
+func zzAccountKnown2(im *zzImage, id string, extraFree []uint64, memAuthoritative bool, trigger bool, key string) {
 	zz.Assertf(len(im.errs) == 0, id+"/R-structure", zzJoin(im.errs))
 	if im.cur < 0 {
 		return
 	}
 	free := im.free
-	if !im.hasFL {
+	if !im.hasFL || memAuthoritative {
 		free = extraFree
 	}
 	owner := map[uint64]int{}
